@@ -906,6 +906,8 @@ class IsoHybrid:
                 # Only the CHS ending cylinder is clamped to 1024; the size of
                 # the partition in sectors always covers the whole image.
                 psize = (iso_size + padding) // 512 - self.part_offset
+                if psize <= 0:
+                    raise pycdlibexception.PyCdlibInvalidInput('The isohybrid partition offset lies beyond the end of the ISO')
                 raw = struct.pack('<BBBBBBBBLL', 0x80, self.bhead, self.bsect,
                                   self.bcyle, self.ptype, self.ehead, esect,
                                   ecyle, self.part_offset, psize)
